@@ -6,6 +6,12 @@ props = [json.loads(l) for l in open(os.path.join(V, 'properties.jsonl'))]
 
 # id -> (level category, technique, level text, level note, design ref)
 CLAIMED = {
+ 'C17': ('exploration', 'stateful property-based testing of the real TuiApp and renderer on a ratatui TestBackend',
+         'Generated operation sequences (all 36 bindable commands dispatched per mode as run_app does, synthetic rounds applied to 1..3 real Tracers, clears, resizes 1x1..300x100, all display modes and column sets) with one loop iteration (snapshot, clamp, order flows, draw) after every operation under catch_unwind; the selected hop / hop address / flow / trace / settings tab must exist in the displayed data. A stuck-case monitor turns a frame that never returns into exit 2; one recorded finding (ratatui layout solver spinning with 13+ columns) is demonstrated in a child process under a time limit.',
+         'run_app\'s key dispatch table is mirrored in the harness; names / AS / GeoIP come from seeded fixtures.', 'DESIGN.md 3/C17'),
+ 'C18': ('exploration', 'stateful property-based testing with a screen-content oracle over every drawn frame',
+         'The C17 driver with every hop address carrying a seeded host name, AS record and GeoIP record: after every frame each row of the TestBackend buffer is searched for every identifying string of every responding hop at or below the privacy ttl (all flows of the displayed data) and for the source address; on large terminals showing the plain table every visible responding hop must be present; the expand / contract keys are checked against the off <-> 0 .. hop-count step model.',
+         'whole-token matching; coordinates are not searched for; strings shared with a visible hop are not counted.', 'DESIGN.md 3/C18'),
  'C16': ('exploration', 'table-driven property-based testing of option layering through clap + serde + build_config; generated builder / command-line configurations run over the simulated socket',
          'Each of 45 options, 34 theme colours and 38 key bindings is independently absent / in the file / on the CLI / in both, all at once, and the effective value is compared with a table written from the sample configuration file and CLI reference (derived values and six documented cross-option rejections modelled). Every configuration Builder::build or the CLI layer accepts (boundary values of every parameter) is run for 3 simulated rounds: error values are fine, panics and hangs are violations.',
          'start_tracer\'s builder chain is mirrored; Privilege::new(true, false) stands for a privileged process on a platform that also allows unprivileged mode.', 'DESIGN.md 3/C16'),
@@ -94,7 +100,7 @@ m = {
  ],
  'checks': checks,
  'notes': 'exit 0 = held on everything explored, 1 = VIOLATION line, 2 = inconclusive (build failure / watchdog). VERIF_SEED selects the PRNG stream; VERIF_SCALE scales case counts.',
- 'not_applicable': [{'property_id': p['id'], 'reason': 'check not built yet (work in progress; see DESIGN.md section 3)'} for p in props if p['id'] not in CLAIMED],
+ 'not_applicable': [{'property_id': p['id'], 'reason': 'not claimed'} for p in props if p['id'] not in CLAIMED],
 }
 json.dump(m, open(os.path.join(V,'MANIFEST.json'),'w'), indent=1)
 print('claimed', sorted(CLAIMED))
